@@ -18,9 +18,11 @@ import z3
 from vc.sorts import *  # noqa
 from vc.spec import *  # noqa
 from vc import sm
-from vc.speclemmas import LIB as _LIB0, STREAM
+from vc.speclemmas import LIB as _LIB0, STREAM, ZIPL, MAPL
 LIB = dict(_LIB0)
 LIB.update(STREAM)
+LIB.update({k: v for k, v in MAPL.items() if v is not None})
+LIB.update({k: v for k, v in ZIPL.items() if v is not None})
 from vc.engine import SV, SymRaise, Unsupported, PathEnd, Infeasible
 from vc.pyfe import Interp, Obj, OutLog, LoopContract, _LoopDone, STR_OF_INT
 from contracts.interp_sim import METHODS, OPS_OF, PHASE_NO, PHASES_OF, SI, _proved
@@ -89,6 +91,45 @@ class ReadListContract:
             raise SymRaise('DeserializingException', '', 'read_list')
         self.st.t = ctx.nz(il_drop(n, rest))
         return SV(ctx.nz(il_take(n, rest)), 'idl', 'int')
+
+
+class KeysComp:
+    """keys = [next_byte(..) for _ in range(n)]   (Instantiate case): the next n bytes of the stream, DeserializingException when fewer remain.
+    Verified in place: an arbitrary element i (invariant: i bytes consumed so far) reads exactly the i-th of those bytes."""
+    def __init__(self, st):
+        self.st = st
+
+    def entry(self, interp, ctx, env, it):
+        from vc.pyfe import _SymRange
+        if not isinstance(it, _SymRange):
+            raise Unsupported('the comprehension does not run over range(n): its contract does not apply')
+        self.S1 = self.st.t
+        self.n = interp.as_int(it.n)
+
+    def arbitrary_iteration(self, interp, ctx, env, it):
+        i = ctx.fresh('int', 'i').t
+        ctx.assume(z3.And(i >= 0, i < self.n, i <= il_len(self.S1)))
+        self.st.t = il_drop(i, self.S1)
+        self.i = i
+        for ln, args in (('il_drop_len', [i, self.S1]), ('il_take_step', [i, self.S1]), ('il_nth_drop', [i, self.S1])):
+            ctx.lemma_fact(ln, LIB[ln].inst(*args))
+        return SV(i, 'int')
+
+    def after_element(self, interp, ctx, env, it, v):
+        ctx.oblige('comp-inv:the element produced is the next byte of the stream', interp.as_int(v) == hd(il_drop(self.i, self.S1)), kind='inv')
+        ctx.oblige('comp-inv:the stream advances by one byte per element', z3.And(self.st.t == il_drop(self.i + 1, self.S1), self.i + 1 <= il_len(self.S1)), kind='inv')
+
+    def exit_value(self, interp, ctx, env, it):
+        ctx.assume(z3.And(self.n >= 0, il_len(self.S1) >= self.n))
+        self.st.t = ctx.nz(il_drop(self.n, self.S1))
+        for ln, args in (('il_take_len', [self.n, self.S1]), ('il_allbytes_take', [self.n, self.S1])):
+            ctx.lemma_fact(ln, LIB[ln].inst(*args))
+        return SV(ctx.nz(il_take(self.n, self.S1)), 'intlist')
+
+    def early_stop(self, interp, ctx, env, it):
+        ctx.assume(z3.And(self.n >= 0, il_len(self.S1) < self.n))
+        ctx.check_feasible()
+        raise SymRaise('DeserializingException', '', 'next_byte')
 
 
 def stream_contracts(cs, st):
@@ -268,10 +309,22 @@ def emitted(chunks, tail=NIL):
     return t
 
 
+def KEYS_COMP_ORDINAL(repo):
+    """ordinal (among the comprehensions of deserialize_instructions) of `[next_byte(..) for _ in range(n)]`"""
+    f = repo.module(DMOD).static[Q]
+    k = 0
+    for node in ast.walk(f.node):
+        if isinstance(node, (ast.DictComp, ast.ListComp, ast.SetComp, ast.GeneratorExp)):
+            if isinstance(node, ast.ListComp) and isinstance(node.elt, ast.Call) and isinstance(node.elt.func, ast.Name) and node.elt.func.id == 'next_byte':
+                return k
+            k += 1
+    return -1
+
+
 def run_iteration(repo, ctx, cs, obj, st):
     """-> 'ran' | 'exit'; SymRaise propagates"""
     one = OneIteration()
-    interp = Interp(repo, ctx, stream_contracts(cs, st), opts={'loops': {(Q, 0): one}})
+    interp = Interp(repo, ctx, stream_contracts(cs, st), opts={'loops': {(Q, 0): one}, 'comps': {(Q, KEYS_COMP_ORDINAL(repo)): KeysComp(st)}})
     f = repo.module(DMOD).static[Q]
     try:
         interp.run_function(f, [SV(NIL, 'bytes'), obj])
@@ -308,6 +361,22 @@ def encdec_unit(repo, cs, meth, phase, proved_term=False):
         ctx.cover('call')
         interp.run_function(o1.cls.find_method(meth), [o1] + args)        # not accepted by the serialiser: nothing to replay
         rest = ctx.input('idl', 'rest')
+        if meth in ('instantiate', 'instantiate_pattern'):
+            # facts about the map just serialised (instances of proved lemmas): its reversed keys / values as the machine-side lists
+            from vc.speclemmas import mz
+            m_ = args[1].t
+            M_ = expandmap(m_)
+            below = PTLs.get('ptcons', 'pttl', S.t)
+            seg = ptl_lastn(below, pm_len(m_))
+            for ln, a_ in (('mz_rev', [M_]), ('pm_values_tllen', [m_]), ('pm_values_pats', [m_]), ('pm_values_allpat', [m_]), ('mkeys_rev_distinct', [M_]), ('mkeys_rev_len', [M_]),
+                           ('pm_len_m', [m_]), ('pm_keys_rev_m', [m_]), ('mlen_nonneg', [M_]), ('ex_stack_len', [seg]), ('ex_stack_lastn', [below, pm_len(m_)]),
+                           ('pmz_expand', [mkeys_rev(M_), seg]), ('pmz_len', [mkeys_rev(M_), seg]), ('pmz_keys', [mkeys_rev(M_), seg]), ('pmz_values', [mkeys_rev(M_), seg]),
+                           ('pmz_wf', [mkeys_rev(M_), seg])):
+                if ln in LIB:
+                    ctx.lemma_fact(ln, LIB[ln].inst(*a_))
+            # a logical truth (congruence), stated so that the length of the accepted plug segment survives the rewriting of its two sides
+            a1, b1 = tl_taken(ex_stack(below), mlen(M_)), ex_stack(pm_values(m_))
+            ctx.assume(z3.Implies(a1 == b1, z3.And(tl_len(a1) == tl_len(b1), tl_allpat(a1) == tl_allpat(b1), tl_pats(a1) == tl_pats(b1))))
         B1 = emitted(out1.chunks)
         if ctx.branch(IDL.is_('inil', B1), 'nothing emitted'):
             ctx.oblige('post:an accepted call emits an instruction to replay', z3.BoolVal(False), kind='post')
@@ -361,6 +430,11 @@ def decenc_unit(repo, cs, op, phase):
         for _ in range(TYPED.get(op, 0)):
             ctx.assume(z3.Implies(PTLs.is_('ptcons', cur), PTR.is_('PyPat', PTLs.get('ptcons', 'pthd', cur))))
             cur = PTLs.get('ptcons', 'pttl', cur)
+        if op == 'Instantiate':
+            # a python dict has pairwise distinct keys: streams the serialiser can emit list each metavariable id once (stated as a precondition)
+            from vc.speclemmas import il_distinct
+            nk = hd(tail.t)
+            ctx.assume(z3.Implies(z3.And(IDL.is_('icons', tail.t), il_len(tl(tail.t)) >= nk), il_distinct(il_take(nk, tl(tail.t)))))
         S0 = IDL.mk('icons', first, tail.t)
         st = Stream(S0)
         o2, out2 = mk_tracker(interp, ctx, repo, phase, S, Mm, C)
@@ -471,7 +545,9 @@ def _script(rng, s, focus):
                 elif s.phase == ExecutionPhase.Claim:
                     s.publish_claim(s.pattern(_rand_pat(rng, 1)))
                 elif s.claims:
-                    s.publish_proof(s.prop1())
+                    # the next open claim is the FIRST of the list; the claims are pairwise different, so the order matters
+                    want = s.claims[0].pattern
+                    s.publish_proof(s.prop1() if want == _P1 else (s.prop2() if want == _P2 else s.prop3()))
         except AssertionError:
             pass
 
@@ -490,12 +566,17 @@ def _ren(x, tab):
         return dataclasses.replace(x, **{f.name: _ren(getattr(x, f.name), tab) for f in dataclasses.fields(x) if f.init})
     return x
 
+_P1 = Implies(MetaVar(0), Implies(MetaVar(1), MetaVar(0)))
+_P2 = Implies(Implies(MetaVar(0), Implies(MetaVar(1), MetaVar(2))), Implies(Implies(MetaVar(0), MetaVar(1)), Implies(MetaVar(0), MetaVar(2))))
+_P3 = Implies(Implies(Implies(MetaVar(0), bot()), bot()), MetaVar(0))
+
 def _c14_bounded(seed, n, focus):
     rng = random.Random(seed)
     done = 0
     for case in range(n):
         phase = rng.choice([0, 1, 2])
-        claims = [Implies(MetaVar(0), Implies(MetaVar(1), MetaVar(0)))] * rng.randint(0, 2)
+        claims = [_P1, _P2, _P3][:rng.randint(0, 3)]
+        if rng.random() < 0.3: claims.reverse()
         s = _mk(phase, claims)
         st = rng.getstate()
         try:
